@@ -78,6 +78,16 @@ func (ex *Exec) cone(fr *frame, b *ssa.BasicBlock, c *Term) []coneExit {
 				}
 			}
 		}
+		// if-conversion of a pure side block: single predecessor, no phi, only side-effect-free instructions,
+		// ends in a jump to the join point. Its values are computed speculatively; the join's phis select them by guard.
+		if budget > 0 && len(blk.Preds) == 1 && len(blk.Instrs) <= 8 {
+			if _, isJump := blk.Instrs[len(blk.Instrs)-1].(*ssa.Jump); isJump {
+				if _, hasPhi := blk.Instrs[0].(*ssa.Phi); !hasPhi && len(blk.Succs[0].Preds) > 1 && ex.tryEval(fr, blk) {
+					exits = append(exits, coneExit{blk.Succs[0], blk, guard})
+					return
+				}
+			}
+		}
 		exits = append(exits, coneExit{blk, pred, guard})
 	}
 	expand(b.Succs[0], b, c)
@@ -167,13 +177,13 @@ func (ex *Exec) takeIf(fr *frame, b *ssa.BasicBlock, c *Term) {
 	}
 	choice := 0
 	if len(alts) > 1 {
-		choice, _ = ex.fork(func() ([]*Term, []uint64) {
+		choice, _ = ex.forkE(func() ([]*Term, []uint64) {
 			var ts []*Term
 			for _, a := range alts {
 				ts = append(ts, a.guard)
 			}
 			return ts, nil
-		})
+		}, true)
 	}
 	a := alts[choice]
 	fr.prev, fr.block = a.pred, a.target
